@@ -86,8 +86,31 @@ def all_underscores(name):
 
 # ------------------------------------------------------------------ implementation adapter
 
-def build_body(params):
-    sig = ", ".join(n if KINDS[k][0] is None else "%s=%s" % (n, KINDS[k][0]) for n, k in params)
+SHAPES = ("po", "pk", "vp", "ko", "vk")  # positional-only, plain, *name, keyword-only, **name (signature order)
+EXOTIC = ("po", "vp", "vk")
+
+
+def signature_text(params, shape=None):
+    """python source of the parameter list after the context argument"""
+    shape = shape or ["pk"] * len(params)
+    out, star = [], False
+    for i, ((n, k), sh) in enumerate(zip(params, shape)):
+        item = n if KINDS[k][0] is None else "%s=%s" % (n, KINDS[k][0])
+        if sh == "vp":
+            item, star = "*" + n, True
+        elif sh == "vk":
+            item = "**" + n
+        elif sh == "ko" and not star:
+            out.append("*")
+            star = True
+        out.append(item)
+        if sh == "po" and (i + 1 == len(params) or shape[i + 1] != "po"):
+            out.append("/")
+    return ", ".join(out)
+
+
+def build_body(params, shape=None):
+    sig = signature_text(params, shape)
     ns = {"_log": [], "_snap": snap_values}
     # the body records what it received (a copy) and then does what task bodies do: it mutates the mutable
     # values it was given in place (appends to every list), so that any sharing with a later invocation shows
@@ -119,27 +142,27 @@ def task_kwargs(opts):
     return kw
 
 
-def build_task(params, opts):
+def build_task(params, opts, shape=None, name="t"):
     from invoke import Task, task
-    body = build_body(params)
+    body = build_body(params, shape)
     kw = task_kwargs(opts)
     if opts.get("deco"):
-        t = task(name="t", **kw)(body)
+        t = task(name=name, **kw)(body)
     else:
-        t = Task(body, name="t", **kw)
+        t = Task(body, name=name, **kw)
     return body, t
 
 
 class Impl:
     """What the real code makes of one signature."""
 
-    def __init__(self, params, opts):
+    def __init__(self, params, opts, shape=None):
         from invoke.parser import ParserContext
-        self.params, self.opts = params, opts
+        self.params, self.opts, self.shape = params, opts, shape
         self.error = None  # exception class name
         self.stage = None
         self.args = self.ctx = None
-        self.body, self.task = build_task(params, opts)
+        self.body, self.task = build_task(params, opts, shape)
         self.attrs_before = task_attrs(self.task)
         try:
             self.stage = "get_arguments"
@@ -518,10 +541,11 @@ def oracle_kwargs(params, body, kw, mentioned, by_name, given=None):
 
 
 def oracle_executor(task, pctx):
-    """the kwargs the Executor would pass: normalize -> Call -> task(Context, **kwargs)"""
+    """the kwargs the Executor would pass: normalize -> Call -> task(Context, **kwargs); `task` may be the whole
+    namespace the parsed context belongs to"""
     from invoke import Collection, Executor
     c = shared_context()
-    ex = Executor(Collection(task), config=_SHARED["cfg"])
+    ex = Executor(task if isinstance(task, Collection) else Collection(task), config=_SHARED["cfg"])
     calls = ex.normalize([pctx])
     if len(calls) != 1:
         return ["executor-calls param=- %d calls" % len(calls)]
@@ -610,7 +634,7 @@ def check_case(case, rng=None, n_argv=2):
     argvs yet gets a few by-construction ones (stored in the case, so that a replay repeats them)."""
     params = [tuple(p) for p in case["params"]]
     opts = case["opts"]
-    impl = Impl(params, opts)
+    impl = Impl(params, opts, case.get("shape"))
     if rng is not None and "argvs" not in case:
         case["argvs"] = [[a, m, g] for a, m, g in make_argvs(rng, impl, n_argv)] if nontrivial(case) or rng.random() < 0.3 else []
         case["h3"] = bool(case["argvs"]) and rng.random() < 0.2
@@ -622,9 +646,161 @@ def check_case(case, rng=None, n_argv=2):
     return impl, fails, stats
 
 
+# ------------------------------------------------------------------ family (c): a whole namespace
+
+class View:
+    """one context of a namespace, seen as `Impl` sees the context of a single task"""
+    error = stage = None
+
+    def __init__(self, params, opts, shape, body, task, ctx):
+        self.params, self.opts, self.shape, self.body, self.task, self.ctx = params, opts, shape, body, task, ctx
+        self.args = list(ctx.args.values())
+
+
+def build_tree(case):
+    from invoke import Collection
+    members = []
+    for tk in case["tasks"]:
+        params = [tuple(p) for p in tk["params"]]
+        body, task = build_task(params, tk["opts"], tk.get("shape"), name=tk["name"])
+        members.append((params, tk["opts"], tk.get("shape"), body, task))
+    root, subs = Collection(), {}
+    for coll, idx, bname in case["bind"]:
+        if coll and coll not in subs:
+            subs[coll] = Collection(coll)
+        (subs[coll] if coll else root).add_task(members[idx][4], name=bname)
+    for sub in subs.values():
+        root.add_collection(sub)
+    return members, root
+
+
+def canon_nohelp(s):
+    parts = s.split(" # ")
+    if parts and not parts[0].startswith("EXC"):
+        parts[0] = ";".join(a.rsplit("/", 1)[0] for a in parts[0].split(";")) if parts[0] else ""
+    return " # ".join(parts)
+
+
+def check_tree(case, rng=None):
+    """Several tasks - namesakes with different signatures, one Task object under several names or in several
+    collections - in one namespace: `to_contexts()` must give EVERY binding the CLI of its own task's signature
+    (= what a fresh task with that signature gets, = what the model derives from that signature), and values
+    parsed through any binding must bind to that task's function.
+    Returns (failures, [(context name, task index, canonical context)])."""
+    from invoke.parser import Parser, ParserContext
+    members, root = build_tree(case)
+    try:
+        ctxs = root.to_contexts()
+    except Exception as e:  # noqa
+        return ["tree-not-built param=- to_contexts raised %s although every member builds on its own" % type(e).__name__], []
+    fails, items = [], []
+    gen = rng is not None and "targv" not in case
+    if gen:
+        case["targv"] = {}
+    for ctx in ctxs:
+        task = root[ctx.name]
+        idx = [i for i, m in enumerate(members) if m[4] is task]
+        if len(idx) != 1:
+            fails.append("tree-binding param=- context %r belongs to no member task" % ctx.name)
+            continue
+        params, opts, shape, body, _ = members[idx[0]]
+        fresh = gen_signature(build_task(params, opts, shape)[1].get_arguments())
+        got = gen_signature(ctx)
+        if got != fresh:
+            fails.append("context-of-other-signature param=- context %r of task #%d (def %s(c, %s)) holds  %s  but that "
+                         "signature generates  %s" % (ctx.name, idx[0], case["tasks"][idx[0]]["name"],
+                                                    signature_text(params, shape), got[1], fresh[1]))
+            continue
+        view = View(params, opts, shape, body, task, ctx)
+        fails += ["tree:%s:%s" % (ctx.name, f) for f in oracle_signature(params, opts, view)]
+        items.append((ctx.name, idx[0], canon_nohelp(";".join(Impl.show_arg(a) for a in view.args) + " # " + canon_ctx(show_ctx(ctx)))))
+        if gen:
+            case["targv"][ctx.name] = [list(x) for x in make_argvs(rng, view, 1)][0]
+        step = case["targv"].get(ctx.name)
+        if not step:
+            continue
+        argv, mentioned, given = norm_step(step)
+        try:
+            res = Parser(contexts=ctxs).parse_argv([ctx.name] + argv)
+        except Exception:  # noqa: C01/C07's business
+            continue
+        if len(res) != 1 or res[0].name != ctx.name:
+            continue
+        by_name = {a.name: a for a in view.args}
+        fs = oracle_kwargs(params, body, res[0].as_kwargs, mentioned, by_name, given)
+        fs += oracle_executor(root, res[0])
+        fails += ["tree:%s:after-parse:%s" % (ctx.name, f) for f in fs]
+    return fails, items
+
+
+def random_tree(rng):
+    """2-4 tasks over few task names (so that namesakes with different signatures are common), spread over the
+    root and two sub-collections; some Task objects bound a second time under another name and/or in another
+    collection."""
+    tasks = []
+    for _ in range(rng.choice([2, 2, 3, 3, 4])):
+        for _try in range(20):
+            c = random_case(rng)
+            c["opts"] = {k: v for k, v in c["opts"].items() if k not in ("help", "ign")}
+            if any(sh in EXOTIC for sh in c.get("shape") or []):
+                continue
+            if not Impl([tuple(p) for p in c["params"]], c["opts"], c.get("shape")).error:
+                break
+        else:
+            c = {"params": [["a", "E"]], "opts": {}}
+        tk = {"name": rng.choice(["build", "build", "build", "clean", "deploy"]), "params": c["params"], "opts": c["opts"]}
+        if c.get("shape"):
+            tk["shape"] = c["shape"]
+        tasks.append(tk)
+    colls = ["", "docs", "www"]
+    bind, used = [], set()
+
+    def add(coll, idx, bname):
+        key = (coll, bname or tasks[idx]["name"])
+        if key in used:
+            return False
+        used.add(key)
+        bind.append([coll, idx, bname])
+        return True
+    for i in range(len(tasks)):
+        order = colls[:]
+        rng.shuffle(order)
+        if not any(add(coll, i, None) for coll in order):
+            add(rng.choice(colls), i, "task%d" % i)
+        if rng.random() < 0.35:
+            add(rng.choice(colls), i, "alt%d" % i)  # the same Task object under a second name
+        if rng.random() < 0.3:
+            add(rng.choice(colls), i, None)  # ... or in a second collection
+    return {"tasks": tasks, "bind": bind}
+
+
 def replay(case):
-    _, fails, _ = check_case(case)
+    if "tasks" in case:
+        fails, _ = check_tree(case)
+    else:
+        _, fails, _ = check_case(case)
     return (not fails), (fails[0] if fails else "ok")
+
+
+KNOWN_SHAPE = {"C09-var-positional-param": "vp", "C09-var-keyword-param": "vk", "C09-positional-only-param": "po"}
+UNDELIVERABLE = ("kwargs-do-not-bind", "executor-kwargs", "given-value-not-delivered")
+
+
+def failure_tag(why):
+    return why.split(" ")[0].split(":")[-1]
+
+
+def match_known(entry, failure):
+    """`*args`, `**kwargs` and positional-only parameters are exposed as ordinary (required positional) arguments
+    whose values cannot be handed to the function by keyword: exactly the binding/delivery failures of a signature
+    that contains such a parameter."""
+    sh = KNOWN_SHAPE.get(entry.get("id"))
+    tag = failure_tag(failure["why"])
+    if sh is None or "tasks" in failure["case"]:
+        return False
+    if tag not in UNDELIVERABLE and not (sh == "vk" and tag == "default-not-carried"):
+        return False  # (a **kw parameter receives {'name': value}, also for the untouched default)
+    return sh in (failure["case"].get("shape") or [])
 
 
 # ------------------------------------------------------------------ generation
@@ -683,8 +859,35 @@ def random_case(rng):
     if rng.random() < 0.03:
         names[rng.randrange(k)] = rng.choice(["_", "__"])  # blank CLI name (#29, now refused with ValueError)
     kinds = [rng.choice(MAIN_KINDS + ["E", "E", "T", "F", "S", "I", "N", "I0", "S0", "L0"]) for _ in names]
-    params = order_params(list(zip(names, kinds)))
-    return {"params": [list(p) for p in params], "opts": random_opts(rng, params)}
+    params, shape = random_shape(rng, list(zip(names, kinds)))
+    case = {"params": [list(p) for p in params], "opts": random_opts(rng, params)}
+    if any(sh != "pk" for sh in shape):
+        case["shape"] = shape
+    return case
+
+
+def random_shape(rng, params):
+    """Which kind of parameter each one is.  72 % plain parameters only; 22 % a tail of keyword-only parameters
+    (`*, x`, `*, x=1`, in any order: a parameter lacking a default may follow a defaulted one); 6 % one of the
+    kinds the CLI cannot serve (`*args`, `**kwargs`, positional-only)."""
+    r = rng.random()
+    k = len(params)
+    if r < 0.72:
+        return order_params(params), ["pk"] * k
+    if r < 0.94:
+        cut = rng.randrange(0, k)  # params[cut:] are keyword-only, in the order drawn
+        return order_params(params[:cut]) + params[cut:], ["pk"] * cut + ["ko"] * (k - cut)
+    what = rng.choice(EXOTIC)
+    if what == "po":
+        ps = order_params(params)
+        cut = rng.randrange(1, k + 1)
+        return ps, ["po"] * cut + ["pk"] * (k - cut)
+    if what == "vk":
+        ps = order_params(params[:-1]) + [(params[-1][0], "E")]
+        return ps, ["pk"] * (k - 1) + ["vk"]
+    cut = rng.randrange(0, k)  # *name at position cut, keyword-only ones after it
+    ps = order_params(params[:cut]) + [(params[cut][0], "E")] + params[cut + 1:]
+    return ps, ["pk"] * cut + ["vp"] + ["ko"] * (k - cut - 1)
 
 
 def exhaustive_small():
@@ -695,6 +898,8 @@ def exhaustive_small():
         for k1 in MAIN_KINDS:
             for k2 in MAIN_KINDS:
                 if k1 != "E" and k2 == "E":
+                    # only expressible with a keyword-only second parameter: def t(c, n1=…, *, n2)
+                    yield {"params": [[n1, k1], [n2, k2]], "opts": {}, "shape": ["pk", "ko"]}
                     continue
                 yield {"params": [[n1, k1], [n2, k2]], "opts": {}}
 
@@ -709,6 +914,8 @@ CORPUS = [  # design-time witnesses (DESIGN.md section 4 #11, #12, #28, #13, obs
     {"params": [["xy", "E"], ["x1", "S"]], "opts": {}},
     {"params": [["a_b", "E"]], "opts": {"help": ["a-b", "a_b"]}},
     {"params": [["a", "E"], ["b", "I"]], "opts": {"positional": ["b", "zz", "b"]}},
+    {"params": [["host", "E"], ["retries", "I"], ["target", "E"]], "opts": {}, "shape": ["pk", "pk", "ko"]},
+    {"params": [["a", "I"], ["b", "E"], ["d", "I0"], ["e", "E"]], "opts": {}, "shape": ["pk", "ko", "ko", "ko"]},
 ]
 
 
@@ -724,12 +931,12 @@ def run(ctx):
     ex = list(exhaustive_small())
     if not (ctx.thorough or ctx.escalated):
         # quick: every 1-parameter signature, every pair of names with a seeded third of the kind pairs
-        ex = [c for c in ex if len(c["params"]) == 1 or rng.random() < 0.34]
+        ex = [c for c in ex if len(c["params"]) == 1 or rng.random() < 0.28]
     else:
         out.exhaustive = True
     cases += ex
     out.extra["exhaustive_small_scope"] = len(ex)
-    for _ in range(ctx.n(8000, 120000)):
+    for _ in range(ctx.n(7000, 110000)):
         cases.append(random_case(rng))
     n_argv = 2
     # pass 1: the real code + oracle; collect model lines
@@ -748,6 +955,11 @@ def run(ctx):
         if c.get("h3"):
             out.hist["history:two-invocations-executor"] += 1
         out.hist["history:5-generations"] += 1
+        shp = c.get("shape") or []
+        out.hist["shape:" + ("+".join(sorted(set(shp) - {"pk"})) or "plain")] += 1
+        if any(sh == "ko" and k == "E" and any(k2 != "E" for _, k2 in params[:i])
+               for i, ((_, k), sh) in enumerate(zip(params, shp))):
+            out.hist["shape:no-default-after-default"] += 1
         if any(all_underscores(n) for n, _ in params):
             out.hist["underscore-only-name"] += 1
         else:
@@ -777,10 +989,43 @@ def run(ctx):
             out.hist["oracle-only"] += 1
         for f in fails:
             out.hist["fail:" + f.split(" ")[0]] += 1
+            if any(match_known({"id": i}, {"case": c, "why": f}) for i in KNOWN_SHAPE):
+                # keep a few of the known ones, so that the (capped) failure list cannot fill up with them
+                out.hist["fail:known-undeliverable-kind"] += 1
+                if out.hist["fail:known-undeliverable-kind"] > 30:
+                    continue
             out.fail(c, f)
+    # family (c): namespaces
+    tlines, towners = [], []
+    for _ in range(ctx.n(500, 8000)):
+        tc = random_tree(rng)
+        tfails, items = check_tree(tc, rng)
+        out.case(tc, True)
+        out.hist["tree:tasks=%d" % len(tc["tasks"])] += 1
+        out.hist["tree:contexts"] += len(items)
+        names = [t["name"] for t in tc["tasks"]]
+        if len(set(names)) != len(names):
+            out.hist["tree:namesakes"] += 1
+        if len(tc["bind"]) > len(tc["tasks"]):
+            out.hist["tree:task-bound-more-than-once"] += 1
+        for f in tfails:
+            out.hist["fail:" + failure_tag(f)] += 1
+            out.fail(tc, f)
+        for cname, idx, canon in items:
+            tk = tc["tasks"][idx]
+            params = [tuple(p) for p in tk["params"]]
+            if ctx.model_ok and modelable(params, tk["opts"]):
+                towners.append((tc, cname, canon))
+                tlines.append(model_line(params, tk["opts"]))
     # pass 2: the model
-    if ctx.model_ok and lines:
-        model = drv.run(lines)
+    if ctx.model_ok and (lines or tlines):
+        model = drv.run(lines + tlines)
+        for (tc, cname, canon), m in zip(towners, model[len(lines):]):
+            out.traces += 1
+            got = canon_nohelp(canon_model(m))
+            if got != canon:
+                out.disagree({"tree": tc, "context": cname}, canon, got)
+        model = model[:len(lines)]
         for (ri, j), m in zip(owners, model):
             c, impl, fails, stats = results[ri]
             out.traces += 1
